@@ -353,6 +353,10 @@ static lp_id_t get_neighbor_star(lp_id_t from, struct topology *topology, enum t
 		return INVALID_DIRECTION;
 	}
 
+	// Corner case: a star made of the centre alone has no neighbor
+	if(topology->regions == 1)
+		return INVALID_DIRECTION;
+
 	if(from == 0)
 		return RandomRange(1, (int)(topology->regions - 1));
 	return 0;
